@@ -211,13 +211,15 @@ func (s *store) persistBlobSize(key string, sizeBytes uint64) error {
 }
 
 func (s *store) ensureFreeSpace(space uint64) error {
-	if s.size+space <= s.capacity {
+	// Overflow-safe form of s.size+space > s.capacity.
+	exceeds := func() bool { return space > s.capacity || s.size > s.capacity-space }
+	if !exceeds() {
 		return nil
 	}
 
 	// TODO - benchmark and consider whether async eviction makes more sense.
 	startTime := time.Now()
-	for s.size+space > s.capacity {
+	for exceeds() {
 		if s.evictQueue.Len() == 0 {
 			s.log.With(
 				"unevictable_bytes", s.size,
